@@ -134,6 +134,10 @@ func c19DecodeSeq(c c19Case, g int, p *plenc.Plenc, stats *[3]int) *vh.Failure {
 	buf := make([]byte, 0, 8192)
 	var kept []c19Kept
 	seen := map[string]bool{}
+	// one pair of targets that is re-used for every step: the interned type must
+	// merge into a populated target exactly as the plain type does
+	reusedI := reflect.New(irt)
+	reusedT := reflect.New(tw.Build())
 	for si, v := range c.Steps[g] {
 		// encoding: the option does not change it
 		twinBytes, err := p.Marshal(nil, vh.ToReflect(tw, v).Addr().Interface())
@@ -175,6 +179,15 @@ func c19DecodeSeq(c c19Case, g int, p *plenc.Plenc, stats *[3]int) *vh.Failure {
 			if overlaps(r, lo, hi) {
 				return vh.Fail("C19/interned-aliases-input", "goroutine %d step %d: %s points into the input buffer", g, si, r.what)
 			}
+		}
+		if err := p.Unmarshal(buf, reusedI.Interface()); err != nil {
+			return vh.Fail("C19/unmarshal-error", "interned, re-used target: %v", err)
+		}
+		if err := p.Unmarshal(append([]byte{}, buf...), reusedT.Interface()); err != nil {
+			return vh.Fail("C19/unmarshal-error", "twin, re-used target: %v", err)
+		}
+		if d := vh.Diff(it, vh.FromReflect(it, reusedI.Elem()), vh.FromReflect(tw, reusedT.Elem())); d != "" {
+			return vh.Fail("C19/interned-decode-differs-on-reused-target", "goroutine %d step %d: decoding into a re-used target differs from the type without intern at %s", g, si, d)
 		}
 		kept = append(kept, c19Kept{target.Elem(), got})
 		// overwrite the whole buffer before the next call
@@ -281,6 +294,49 @@ var c19Seq = &vh.Prop[c19Case]{ID: "C19", Name: "sequential-history", Gen: func(
 var c19Sched = &vh.Prop[c19Case]{ID: "C19", Name: "owned-schedule", Gen: func(t *rapid.T) c19Case { return genC19(t, 3) }, Run: c19Run}
 
 func TestC19Sequential(t *testing.T) { c19Seq.Check(t, vh.N(8000, 60000)) }
+
+// c19Long: long single-field histories, so that the interning table grows to
+// hundreds of entries (table-size dependent behaviour) with repeats in between.
+type c19LongCase struct {
+	Shape    int `json:"shape"`
+	Distinct int `json:"distinct"` // number of distinct strings fed through the interned fields
+	Stride   int `json:"stride"`   // every stride-th step repeats an earlier string
+}
+
+var c19Long = &vh.Prop[c19LongCase]{
+	ID: "C19", Name: "long-history",
+	Gen: func(t *rapid.T) c19LongCase {
+		return c19LongCase{Shape: rapid.IntRange(0, 2).Draw(t, "shape"), Distinct: []int{40, 130, 260, 300, 520, 1100}[rapid.IntRange(0, 5).Draw(t, "distinct")],
+			Stride: rapid.IntRange(2, 9).Draw(t, "stride")}
+	},
+	Run: func(c c19LongCase, x *vh.Ctx) *vh.Failure {
+		it, _ := c19Shape(c.Shape)
+		cc := c19Case{Shape: c.Shape}
+		var seq []vh.Val
+		k := 0
+		for i := 0; i < c.Distinct; i++ {
+			v := c07FixedVal(it)
+			setStrings(it, &v, func() []byte {
+				k++
+				if k%c.Stride == 0 {
+					return []byte(fmt.Sprintf("str-%d", (k*7)%(i+1))) // a repeat of something seen earlier
+				}
+				return []byte(fmt.Sprintf("str-%d", i))
+			})
+			seq = append(seq, v)
+		}
+		cc.Steps = [][]vh.Val{seq}
+		var st [3]int
+		if f := c19DecodeSeq(cc, 0, vh.NewPlenc(vh.Cfg{}), &st); f != nil {
+			return f
+		}
+		x.Label(fmt.Sprintf("distinct-strings:%d", c.Distinct))
+		x.NonTrivial()
+		return nil
+	},
+}
+
+func TestC19LongHistory(t *testing.T) { c19Long.Check(t, vh.N(40, 400)) }
 func TestC19Schedules(t *testing.T)  { c19Sched.Check(t, vh.N(2500, 15000)) }
 
 // TestC19Race: 2-8 free-running goroutines decode through one shared instance (run with -race).
@@ -358,4 +414,4 @@ func setStrings(ts *vh.TSpec, v *vh.Val, next func() []byte) {
 	}
 }
 
-func init() { registrars = append(registrars, c19Seq.Register, c19Sched.Register) }
+func init() { registrars = append(registrars, c19Seq.Register, c19Sched.Register, c19Long.Register) }
